@@ -17,6 +17,7 @@ import WD.Proofs.Pipeline.BurstFiles
 import WD.Proofs.Pipeline.BurstFlat
 import WD.Proofs.Pipeline.BurstGrow
 import WD.Proofs.Pipeline.Paced
+import WD.Proofs.Pipeline.PacedFlat
 import WD.Proofs.Pipeline.BurstMkRename
 import WD.Proofs.Pipeline.Theorems
 namespace WD.C01
@@ -238,5 +239,19 @@ theorem burst_created_and_renamed_partial (fs0 : FS) (hwf : fs0.WF) (full : Bool
   obtain ⟨⟨⟨⟨⟨⟨⟨_, a1⟩, a2⟩, a3⟩, a4⟩, a5⟩, a6⟩, a7⟩ := hb
   have := (burst_mkdir_rename_replay _ p q inv hs hc a1 a2 a3 a4 a5 a6 a7).1
   rw [this, run_full, (start_rec fs0 hwf full).2.2.2.2]
+
+
+/-- non-recursive watch, PACED histories: ANY sequence of bursts of valid operations (files and directories created,
+    removed, renamed, moved in and out - anything but the removal of the root), each burst read as one batch: replaying
+    everything delivered on the root's direct children as they were at the start gives the root's direct children as they
+    are at the end (under a non-recursive watch the batching is invisible: `runBursts_flat`) -/
+theorem replay_paced_nonrecursive_partial (fs0 : FS) (hwf : fs0.WF) (full : Bool) (bs : List (List Op))
+    (hb : flatOK (Sys.start fs0 false full) bs = true) :
+    sameTree (replay (treeW1 fs0) ((Sys.start fs0 false full).runBursts bs).2.flatten)
+             (treeW1 ((Sys.start fs0 false full).runBursts bs).1.fs) := by
+  obtain ⟨inv, hs, hc, _, _⟩ := start_flat fs0 hwf full
+  obtain ⟨h1, h2, h3, h4⟩ := runBursts_flat bs _ inv hs hc hb
+  rw [h1, h2]
+  exact replay_nonrecursive_partial fs0 hwf full bs.flatten h3 h4
 
 end WD.C01
